@@ -43,6 +43,11 @@ def c15a(ctx, tu):
         exits, terms = ex.explore(f, None)
         bad = [(q, tr) for q, tr in exits.items() if q is not None]
         n_ctx += 1
+        if bad and bad[0][0][1] == "?":
+            ctx.ob("C15.a", f.qe, None, pattern=f.pat, unit=tu.name, inst=f.q,
+                   detail="the severity of a report reachable from %s is not a constant this rule can follow (at %s)"
+                   % (f.qe, short_loc(bad[0][0][2])))
+            continue
         ctx.ob("C15.a", f.qe, not bad, pattern=f.pat, unit=tu.name, inst=f.q,
                detail="" if not bad else "a report reachable from destructor %s is sent with severity %s "
                "(must be non-fatal: a conforming reporter throws on fatal) at %s"
@@ -62,6 +67,11 @@ def c15a(ctx, tu):
         exits, terms = ex2.explore(f, None)
         bad = [(q, tr) for q, tr in exits.items() if q is not None]
         n_ctx += 1
+        if bad and bad[0][0][1] == "?":
+            ctx.ob("C15.a", f.qe, None, pattern=f.pat, unit=tu.name, inst=f.q,
+                   detail="the severity of a report on the call path is not a constant this rule can follow (at %s)"
+                   % short_loc(bad[0][0][2]))
+            continue
         ctx.ob("C15.a", f.qe, not bad, pattern=f.pat, unit=tu.name, inst=f.q,
                detail="" if not bad else "a violation detected during a mock call is reported with severity %s "
                "(must be fatal) at %s" % (bad[0][0][1], short_loc(bad[0][0][2])),
@@ -173,6 +183,10 @@ def c15b(ctx, tu):
         org = origins(tu, f, args[1])
         if any(o.endswith("(no caller in unit)") for o in org):
             continue    # this unit does not contain the callers (an inline function nobody uses here)
+        if any(o in ("oparam",) or o.startswith("?") for o in org):
+            ctx.ob("C15.b", f.qe, None, pattern=short_loc(e.get("loc", "")), unit=tu.name, inst=f.q,
+                   detail="the location argument comes through a capture / a chain this rule cannot follow: " + ", ".join(sorted(org)))
+            continue
         if spec == "empty":
             ok = org == {"empty trompeloeil::location"}
             why = "location argument should be the empty location{}; it is " + ", ".join(sorted(org))
@@ -191,6 +205,10 @@ def c15b(ctx, tu):
             continue
         org = origins(tu, f, ["param", idx[0], "match_name"])
         if any(o.endswith("(no caller in unit)") for o in org):
+            continue
+        if any(o in ("oparam",) or o.startswith("?") for o in org):
+            ctx.ob("C15.b.name", A["validate_match"], None, pattern=f.pat, unit=tu.name,
+                   detail="the name comes through a capture / a chain this rule cannot follow")
             continue
         ok = bool(org) and all(o.startswith("field trompeloeil::call_matcher_base::name of this") or
                                o.startswith("field trompeloeil::lifetime_monitor::call_name of this") for o in org)
